@@ -1,7 +1,7 @@
 #!/bin/bash
 # Runs the owning check (quick tier) against every seeded change in /verif/seeded and records the result in
 # seeded/<id>/meta.json ("detected_by") and seeded/INDEX.md. Never touches /repo (tools/trymutant.sh).
-cd /verif
+ROOT=$(cd "$(dirname "$0")/.." && pwd); cd $ROOT
 OUT=seeded/INDEX.md
 echo "# Seeded changes: which check reports them (quick tier, VERIF_SEED=${VERIF_SEED:-1})" > $OUT.tmp
 echo "" >> $OUT.tmp
